@@ -434,11 +434,31 @@ func ruleInfo(rule string) RuleFn {
 				}
 				// stored at the same index of the list it was read from
 				okIdx := false
-				m := regexp.MustCompile(`^(.*)\[\((φt\d+) \+ 1\)\]$`).FindStringSubmatch(base)
+				// range form X[(φ + 1)] or index form X[φ] with a counting loop over the whole of X
+				m := regexp.MustCompile(`^(.*)\[(\(φt\d+ \+ 1\)|φt\d+)\]$`).FindStringSubmatch(base)
+				if os.Getenv("VERIF_DEBUG_FACTS") == "x-info" {
+					fmt.Fprintln(os.Stderr, "x-info base:", base)
+					for _, l := range allLoops(fn) {
+						fmt.Fprintln(os.Stderr, "  loop:", l.header.Comment, l.over, l.body[al.Block()])
+					}
+				}
+				if m != nil && !strings.HasPrefix(m[2], "(") {
+					whole := false
+					for _, l := range allLoops(fn) {
+						if l.body[al.Block()] && l.header.Comment == "for.loop" {
+							if all, _ := loopCoversAll(l); all && (l.over == m[1] || strings.HasSuffix(l.over, "< len("+m[1]+"))")) {
+								whole = true
+							}
+						}
+					}
+					if !whole {
+						m = nil
+					}
+				}
 				for _, r := range an.Referrers(al) {
 					if st, ok := r.(*ssa.Store); ok && st.Val == ssa.Value(al) && m != nil {
 						a := an.Norm(st.Addr)
-						if !strings.HasSuffix(a, "[("+m[2]+" + 1)]") {
+						if !strings.HasSuffix(a, "["+m[2]+"]") {
 							continue
 						}
 						if strings.Contains(a, ".Inputs[") || strings.Contains(a, ".Outputs[") {
